@@ -25,6 +25,17 @@ CLAIMED = {
         'design_ref': 'DESIGN.md section 5 C01, section 4',
         'technique': 'Coq proof (induction on the type universe + loop invariants + order theory) + model/implementation differential correspondence',
     },
+    'C04': {
+        'category': 'proof',
+        'text': ('Kernel-checked: completeness (every encoding of a value is accepted and yields it, = C01); soundness in both modes (whatever is accepted is a well-typed value in logical form: ranges, non-zero, '
+                 'non-NaN, UTF-8/ASCII, valid tags, distinct ascending keys); under strict ordering the bytes consumed ARE the encoding of the returned value, so accepted byte strings and values are in one-to-one '
+                 'correspondence (C04_strict_bijective, C04_strict_injective) for every type without IndexSet/IndexMap; for EVERY type and byte string the loose decoder accepts exactly what the strict one accepts plus inputs '
+                 'the strict one rejects with the key-order error, with identical results otherwise (C04_loose_accepts_more / C04_strict_accepts_less). Known finding F8 (IndexSet/IndexMap accept repeated entries in every mode) is '
+                 'a theorem (C04_index_refuted) and a KNOWN-FINDING line. ' + CORR + ' Bounded-exhaustive short byte strings for ~100 types, Vec-encodings with arbitrary order/repeats fed to every keyed collection, corruptions; '
+                 'implementation-only oracles: re-encode equals consumed input (strict build), loose vs strict build differ only by the key-order error.'),
+        'design_ref': 'DESIGN.md section 5 C04',
+        'technique': 'Coq proof (parser invariant with typing and re-encoding relations; relational induction loose vs strict) + bounded-exhaustive differential correspondence',
+    },
     'C05': {
         'category': 'proof',
         'text': ('Kernel-checked: for EVERY type and EVERY byte string a successful slice decode reads a prefix, is unaffected by what follows (C05_extend), and every proper '
